@@ -291,7 +291,12 @@ func (x *Exec) mergeStates(ins []*State) *State {
 			cellset[c] = true
 		}
 	}
+	var cellList []*Cell
 	for c := range cellset {
+		cellList = append(cellList, c)
+	}
+	sort.Slice(cellList, func(i, j int) bool { return cellList[i].ID < cellList[j].ID })
+	for _, c := range cellList {
 		var cur Val
 		have := false
 		for i, s := range ins {
